@@ -249,7 +249,7 @@ def main(prop, tier):
     finish(prop, violations, known_lines)
 
 
-DED_UNIT = {'C14': ['lmap'], 'C19': ['semtok', 'lmap'], 'C15': ['conv', 'vfs', 'lmap'], 'C13': ['vfs', 'lmap']}
+DED_UNIT = {'C14': ['lmap'], 'C19': ['semtok', 'lmap'], 'C15': ['conv', 'vfs', 'fileset', 'lmap'], 'C13': ['vfs', 'fileset', 'lmap']}
 # which functions of the line-map unit a property's deductive units rest on (a failed obligation elsewhere in that unit belongs
 # to another property and is only listed)
 LMAP_FNS = {'C14': None,
@@ -257,6 +257,9 @@ LMAP_FNS = {'C14': None,
             'C15': ('LineMap::pos_for_line_col', 'LineMap::end_col_for_line', 'LineMap::last_line'),
             'C13': ('LineMap::pos_for_line_col',)}
 DED_NOTE = {}
+DED_NOTE['fileset'] = ('deductive part (Verus): ide::FileSet::{insert, remove_file, file_for_path} (crates/ide/src/base.rs, verbatim) are verified against vstd\'s specification of std::collections::HashMap: the file set is the pair of '
+                       'finite maps path -> id and id -> path, which is exactly the contract the Vfs unit assumes for its FileSet stand-in. ASSUMED there: VfsPath as an opaque key type whose derive(Clone, Eq, Hash) is lawful '
+                       '(obeys_key_model), Option::copied.')
 DED_NOTE['lmap'] = ('deductive part (Verus): LineMap::last_line, pos_for_line_col, line_col_for_pos and end_col_for_line (rewrites R23-R25 of tools/extract_lmap.py) are verified for ALL line maps satisfying the '
                     'representation invariant LineMap::wf (line starts strictly increasing from 0 and inside the text; the recorded multi-byte characters of a line lie one after the other inside it) and ALL arguments in the stated domain '
                     '(existing line, column within the line; offset inside the text and not strictly inside a recorded character): no index out of range, no overflow / underflow, and the results are the specification functions '
@@ -273,7 +276,9 @@ DED_NOTE['conv'] = ('deductive part (Verus): convert::from_pos and convert::from
 DED_NOTE['vfs'] = ('deductive part (Verus): Vfs::change_file_content (rewrites R17, R20-R22 of tools/extract_vfs.py) is verified for ALL documents, delete ranges and inserted texts relative to the contract of LineMap::normalize '
                    '(the text without CR and THE line map of that text - what the Kani harnesses K1 establish on enumerated documents): a ranged change is accepted exactly when the range ends inside the text and both ends are character boundaries; '
                    'the stored text is strip_cr(text[..start] + inserted + text[end..]) resp. strip_cr(inserted), the stored line map is the one of the stored text, no other file changes, the analysis is told the new text exactly once; '
-                   'a rejected change leaves the file table and the change log untouched. ASSUMED there: slab::Slab as a finite map (indexing a vacant key is a failed precondition), Arc / String / str slicing by assume_specification, the text-size stand-ins, '
+                   'a rejected change leaves the file table and the change log untouched. The same unit verifies Vfs::{set_path_content (didOpen: stored text == strip_cr(text), stored line map == THE line map of the stored text, the path maps to the returned id, every other file untouched), '
+                   'remove_uri, file_for_path, file_for_uri, content_for_file, line_map_for_file} and the data-structure invariant Vfs::wf - every path the file set knows maps to a LIVE slab key - which every mutator preserves and under which a FileId obtained from file_for_path / file_for_uri '
+                   'satisfies the live-key precondition of change_file_content / content_for_file / line_map_for_file (slab panics with "invalid key" otherwise). ASSUMED there: slab\'s vacant-entry protocol (a vacant key is not live and at most the number of slots; inserting through the entry fills exactly that slot), Slab::remove, fewer than 2^32 slots (the code\'s own expect("Length overflow")), ide::FileSet by the contract the unit fileset proves, Url::to_vfs_path and anyhow::Context as opaque functions, slab::Slab as a finite map (indexing a vacant key is a failed precondition), Arc / String / str slicing by assume_specification, the text-size stand-ins, '
                    'stored texts < 4 GiB (LineMap::normalize panics otherwise). If the unit cannot be extracted or Verus rejects it, this part is reported as undecided and the bounded harnesses alone decide.')
 DED_NOTE['semtok'] = ('deductive part (Verus): convert::to_semantic_tokens, to_range and semantic_tokens::to_semantic_type_and_modifiers are verified for ALL highlight lists '
             '(sorted, disjoint, on character boundaries, inside the text) and ALL line maps satisfying LineMap::ok (line_col_for_pos monotone on boundaries, lines <= last_line, '
